@@ -67,15 +67,15 @@ type Fault struct {
 
 // Config of one simulated run.
 type Config struct {
-	Seed     int64          // scheduler PRNG (ignored for choices when Tape != nil)
-	Tape     []int          // explicit choice tape (replay / minimisation); beyond its end: first enabled
-	UseTape  bool           //
-	HostIPs  []netip.Addr   // addresses the client host owns (first is primary)
-	Bcast    []netip.Addr   // addresses the network treats as broadcast (255.255.255.255 is implicit)
-	Foreign  []ForeignPort  // ports held by another process
-	Faults   []Fault        // injected system call failures
-	Horizon  time.Duration  // simulated time after which an unfinished run is a hang
-	MaxSteps int            // scheduler steps after which an unfinished run is a livelock
+	Seed     int64         // scheduler PRNG (ignored for choices when Tape != nil)
+	Tape     []int         // explicit choice tape (replay / minimisation); beyond its end: first enabled
+	UseTape  bool          //
+	HostIPs  []netip.Addr  // addresses the client host owns (first is primary)
+	Bcast    []netip.Addr  // addresses the network treats as broadcast (255.255.255.255 is implicit)
+	Foreign  []ForeignPort // ports held by another process
+	Faults   []Fault       // injected system call failures
+	Horizon  time.Duration // simulated time after which an unfinished run is a hang
+	MaxSteps int           // scheduler steps after which an unfinished run is a livelock
 	World    World
 }
 
@@ -143,7 +143,7 @@ type Sim struct {
 	Steps   int
 
 	ended   bool
-	Verdict string // "", "hang", "livelock"
+	Verdict string   // "", "hang", "livelock"
 	Leaked  []string // parked requests left when the run ended (goroutines blocked in the kernel)
 	Stats   map[string]int
 
